@@ -141,7 +141,7 @@ func (m *Variant) Decode(b []byte) (int, error) {
 
 	// read flattened array elements
 	n := int(m.arrayLength)
-	if n > MaxVariantArrayLength {
+	if n < -1 || n > MaxVariantArrayLength {
 		return buf.Pos(), StatusBadEncodingLimitsExceeded
 	}
 
@@ -163,13 +163,18 @@ func (m *Variant) Decode(b []byte) (int, error) {
 		vals = reflect.MakeSlice(sliceType, n, n)
 		for i := 0; i < n; i++ {
 			vals.Index(i).Set(reflect.ValueOf(m.decodeValue(buf)))
+			if buf.Error() != nil {
+				return buf.Pos(), buf.Error()
+			}
 		}
 	}
 
 	// check for dimensions of multi-dimensional array
 	if m.Has(VariantArrayDimensions) {
 		m.arrayDimensionsLength = buf.ReadInt32()
-		if m.arrayDimensionsLength < 0 {
+		// every dimension takes four bytes: do not allocate more
+		// dimensions than the buffer can hold
+		if m.arrayDimensionsLength < 0 || int(m.arrayDimensionsLength) > buf.Len()/4 {
 			return buf.Pos(), StatusBadEncodingLimitsExceeded
 		}
 		m.arrayDimensions = make([]int32, m.arrayDimensionsLength)
@@ -191,11 +196,16 @@ func (m *Variant) Decode(b []byte) (int, error) {
 	// validate that the total number of elements
 	// matches the product of the array dimensions
 	if m.arrayDimensionsLength > 0 {
-		count := int32(1)
+		// the product is computed in 64 bit and checked after every
+		// step so that it cannot wrap around
+		count := int64(1)
 		for i := range m.arrayDimensions {
-			count *= m.arrayDimensions[i]
+			count *= int64(m.arrayDimensions[i])
+			if count > int64(MaxVariantArrayLength) {
+				return buf.Pos(), errUnbalancedSlice
+			}
 		}
-		if count != m.arrayLength {
+		if count != int64(m.arrayLength) {
 			return buf.Pos(), errUnbalancedSlice
 		}
 	}
